@@ -223,7 +223,7 @@ where
         assert_eq!(self.system.clk(), 0, "a program has already been executed in this process");
         self.execute_code_block(program.root(), program.cb_table())?;
 
-        Ok(self.stack.build_stack_outputs())
+        self.stack.build_stack_outputs()
     }
 
     // CODE BLOCK EXECUTORS
